@@ -434,9 +434,17 @@ func c16TransparencyCheck(c *Ctx, m *gtfsrt.FeedMessage, opts nycttrips.Extensio
 func c16MTrain(c *Ctx) {
 	route := []string{"M", "J", "<absent>"}[c.Free("route", 3)]
 	opts := nyctOptCombos[c.Free("options", 4)]
-	td := &gtfsrt.TripDescriptor{TripId: sp("plain-1")}
+	// plain entities may carry trip ids of the NYCT shape (without the NYCT descriptor they are
+	// plain all the same), with or without a start time of their own
+	tripID := []string{"plain-1", "051150_A..S55R", "123400_M..N"}[c.Free("trip_id_shape", 3)]
+	td := &gtfsrt.TripDescriptor{TripId: sp(tripID)}
 	if route != "<absent>" {
 		td.RouteId = &route
+	}
+	ownStart := c.Free("own_start_time", 2) == 1
+	if ownStart {
+		td.StartTime = sp("20:00:00")
+		td.StartDate = sp("20240102")
 	}
 	tu := &gtfsrt.TripUpdate{Trip: td}
 	var ids []string
@@ -451,10 +459,17 @@ func c16MTrain(c *Ctx) {
 	}
 	m := newFeed(cp(&tsAlphabet[0]))
 	m.Entity = []*gtfsrt.FeedEntity{{Id: sp("e"), TripUpdate: tu}, {Id: sp("v"), Vehicle: &gtfsrt.VehiclePosition{StopId: sp("M11N"), Vehicle: &gtfsrt.VehicleDescriptor{Id: sp("V")}, Trip: &gtfsrt.TripDescriptor{TripId: sp("other"), RouteId: sp("M")}}}}
+	if tripID != "plain-1" {
+		m.Entity[1].Vehicle.Trip.TripId = sp("0" + tripID[1:])
+		if ownStart {
+			m.Entity[1].Vehicle.Trip.StartTime = sp("20:00:00")
+		}
+		c.Witness("plain_entity_with_nyct_shaped_trip_id")
+	}
 	if route == "M" && (refSwap(ids[0]) != ids[0] || refSwap(ids[1]) != ids[1]) {
 		c.Witness("m_train_swap_applies")
 	}
-	c16TransparencyCheck(c, m, opts, tzOptions[0], fmt.Sprintf("route=%s stops=%q", route, ids))
+	c16TransparencyCheck(c, m, opts, tzOptions[0], fmt.Sprintf("route=%s trip_id=%s own start=%v stops=%q", route, tripID, ownStart, ids))
 }
 
 func c16PlainFeeds(c *Ctx) {
@@ -472,7 +487,7 @@ func init() {
 	register(&Check{
 		ID:    "C16",
 		Level: "model_checking",
-		Rule: "(a) all 1 000 000 six-digit origin prefixes; (b) full product of entity kind x is_assigned x direction x train id x existing vehicle descriptor x trip-id kind x tracks x first-stop times (both sides of and equal to the feed timestamp) x stop-time count x 4 option combinations; (c) transparency: route {M,J,-} x two stop ids over a 15-value alphabet x 4 options, and the rich C02 feed within 1 deviation x 4 options; " +
+		Rule: "(a) all 1 000 000 six-digit origin prefixes; (b) full product of entity kind x is_assigned x direction x train id x existing vehicle descriptor x trip-id kind x tracks x first-stop times (both sides of and equal to the feed timestamp) x stop-time count x 4 option combinations; (c) transparency: route {M,J,-} x trip id {plain, two of the NYCT shape} x own start time x two stop ids over a 15-value alphabet x 4 options, and the rich C02 feed within 1 deviation x 4 options; " +
 			"non-trivial = distinct (message, options) pairs (origin prefixes below 600000); oracle = reference rules from the statement + differential against the extension-free parse",
 		Assumptions: []string{"direction is asserted for NORTH and SOUTH only", "the stale rule is not asserted when the first stop's departure is present with value 0 (indistinguishable from missing through proto2 getters)", "an assigned trip without a train id is not asserted to have a vehicle"},
 		Scenarios: func(tier string) []*Scenario {
